@@ -188,7 +188,8 @@ def name_failure(unit, d, lines_map, gen_name):
             at_text = (s['text'][0]['text'].strip() if s.get('text') else '')
             break
     # the clause
-    for s in (prim + sec if kind == 'callee-pre' else prim):
+    # (an invariant that fails at a `continue` / `break` has the statement as its primary span and the clause as a secondary one)
+    for s in (prim + sec if kind in ('callee-pre', 'invariant') else prim):
         e = ent(s)
         if e and e.get('k') in ('contract', 'ghost') and e.get('clause'):
             clause = e['clause']; props = e.get('props', [])
